@@ -13,6 +13,8 @@
 -/
 import CSD.Generated.Fields
 import CSD.Generated.Dispatch
+import CSD.Lemmas.PFCLoad
+import CSD.Lemmas.PFCMeta
 
 namespace CSD.Props.C06
 open CSD.Generated
@@ -42,6 +44,52 @@ accepts it, and `save` writes exactly that tag — on built and on loaded object
 theorem generic_loader_round_trip (k : Kind) :
     dispatch k.tag = some k ∧ loaderGuard k = k.tag ∧ saveTags k = [k.tag] := by
   cases k <;> exact ⟨rfl, rfl, rfl⟩
+
+/-! ### PFC on bytes (exact model of `save`, `load` and of the LogSequence reader/writer) -/
+
+/-- The hand-written byte-level reader and writer of the PFC model follow the field sequence
+extracted from `StringDictionaryPFC::save/load` and `LogSequence::save/LogSequence(istream&)`. -/
+theorem pfc_model_layout_matches_source :
+    saveFields.lookup "PFC" = some PFC.layout ∧ loadFields.lookup "PFC" = some PFC.layout ∧
+    saveFields.lookup "LogSequence" = some PFC.logSeqLayout ∧
+    loadFields.lookup "LogSequence" = some PFC.logSeqLayout := by decide
+
+/-- **A PFC image reloads to the same object and is self-delimiting**: for every valid dictionary
+whose sizes fit the 32/64-bit fields of the format, `save` succeeds and `load` of the image followed
+by *any* bytes returns exactly the object that was saved and leaves exactly those bytes — so a
+reloaded dictionary answers every query (locate, extract, prefix, table, metadata) as the original. -/
+theorem pfc_image_reloads (b : Nat) (S : List Str) (hv : validDict S = true) (hb : b < 2 ^ 32)
+    (hn : S.length < 2 ^ 32) (hml : (PFC.build b S).maxlength < 2 ^ 32)
+    (htl : (PFC.build b S).text.length < 2 ^ 64) :
+    ∃ img, PFC.save (PFC.build b S) = some img ∧
+      ∀ rest, PFC.load (img ++ rest) = some (PFC.build b S, rest) := by
+  obtain ⟨hne, _, _, _⟩ := PFC.validDict_facts hv
+  exact PFC.load_save _ (PFC.build_wf b S hne hb hn hml htl)
+
+/-- Second generation: the reloaded object saves to the same bytes, so the cycle can repeat. -/
+theorem pfc_second_generation (b : Nat) (S : List Str) (hv : validDict S = true) (hb : b < 2 ^ 32)
+    (hn : S.length < 2 ^ 32) (hml : (PFC.build b S).maxlength < 2 ^ 32)
+    (htl : (PFC.build b S).text.length < 2 ^ 64) (img : List UInt8)
+    (h : PFC.save (PFC.build b S) = some img) (rest : List UInt8) :
+    ∃ d', PFC.load (img ++ rest) = some (d', rest) ∧ PFC.save d' = some img ∧
+      ∀ rest', PFC.load (img ++ rest') = some (d', rest') := by
+  obtain ⟨hne, _, _, _⟩ := PFC.validDict_facts hv
+  obtain ⟨img', himg, hl⟩ := PFC.load_save _ (PFC.build_wf b S hne hb hn hml htl)
+  rw [h] at himg; cases himg
+  exact ⟨_, hl rest, h, hl⟩
+
+/-- A LogSequence image reloads to the same sequence (any width 1..255 stored, any length). -/
+theorem logseq_image_reloads (s : LogSeq.T) (hb : s.numbits < 256) (hn : s.numentries < 2 ^ 64)
+    (hd : s.data.length = LogSeq.numWords s.numbits s.numentries) (rest : List UInt8) :
+    LogSeq.load (s.save ++ rest) = some (s, rest) :=
+  LogSeq.load_save s hb hn hd rest
+
+/-- A foreign tag is refused before anything else is read. -/
+theorem pfc_loader_refuses_foreign_tag (tag : Nat) (ht : tag < 2 ^ 32) (hne : tag ≠ 211) (rest : List UInt8) :
+    PFC.load (LogSeq.leBytes tag 4 ++ rest) = none := by
+  unfold PFC.load
+  rw [LogSeq.readLE_leBytes 4 tag (by omega)]
+  simp [hne]
 
 example : (saveFields.lookup "PFC").isSome = true := by decide
 
